@@ -58,6 +58,10 @@ def one_run(cfg, path, fault_at=None, resume=False, train=None):
                       "log_evidence_error": float(tonp(res.log_evidence_error))}
     except InjectedFault as e:
         out.exception = ("InjectedFault", str(e))
+    except Exception as e:
+        from env import exc_site
+
+        out.exception = (type(e).__name__, exc_site(e), str(e)[:200])
     out.aspire = a if "a" in dir() else None
     smp = out.aspire.sampler if out.aspire is not None else None
     out.history = rh.snapshot_history(smp.history) if smp is not None and smp.history is not None else None
@@ -74,7 +78,9 @@ def run_config(cfg):
         ref_path = os.path.join(tmpdir, "ref.h5")
         R = one_run(cfg, ref_path)
         if R.exception is not None:
-            raise explorer.HarnessError(f"reference run raised {R.exception}")
+            rep.case(explorer.digest(["ref", cfg]))
+            rep.violation(f"C11/run-raises/resume_from_file-route/{R.exception[0]}/{R.exception[1]}", R.exception, {"cfg": cfg})
+            return rep.dump()
         K = R.n_calls
         iters = len(R.history["beta"])
         step = 1 if tier == "thorough" else 2
@@ -84,6 +90,10 @@ def run_config(cfg):
             if F.exception is None:
                 raise explorer.HarnessError("fault did not surface")
             case = {"cfg": cfg, "crash_point": k, "route": "resume_from_file"}
+            if F.exception[0] != "InjectedFault":
+                rep.case(explorer.digest([cfg, k, "file"]))
+                rep.violation(f"C11/run-raises/resume_from_file-route/{F.exception[0]}/{F.exception[1]}", F.exception, case)
+                continue
             import h5py
 
             with h5py.File(path, "r") as f:
